@@ -494,6 +494,21 @@ def _entity(cls: ClassInfo, name: str) -> AObj:
     return o
 
 
+def build_manager(I: Interp, mgr: ClassInfo, V, mods, **kw) -> AObj:
+    """The manager as its own constructor builds it (so that attributes a
+    change adds in __init__ exist); the constructor's vector check forks and
+    its refusing path aborts the setup."""
+    init = I.p.class_attr_def(mgr, "__init__")[1]
+    obj = AObj(mgr, {}, name="mgr")
+    if isinstance(init, FuncInfo):
+        n0 = len(I.path.effects)
+        I.call_function(init, [obj, V, mods], dict(kw))
+        del I.path.effects[n0:]  # effects of the setup are K0's business
+    else:
+        obj.attrs.update({"vector": V, "modules": mods})
+    return obj
+
+
 def _entity_hooks(p):
     """Summaries of the accessors (proved by K7-K10): uninterpreted overhang
     terms and the fragment as a named word."""
@@ -572,7 +587,7 @@ def k15_map(ctx, pid: str):
 
     def make_args(I):
         mods = ACollection("modules", lambda: _entity(mod_cls, "m"))
-        return (AObj(mgr, {"modules": mods, "vector": _entity(vec_cls, "V")}),), {}
+        return (build_manager(I, mgr, _entity(vec_cls, "V"), mods),), {}
 
     START_M = Term("start", Term("m"))
 
@@ -699,7 +714,7 @@ def k14_walk(ctx, pid: str):
         mods = ACollection("modules", lambda: _entity(mod_cls, "m"))
         M = AMap("M", make_value=map_value)
         I.the_map = M
-        return (AObj(mgr, {"modules": mods, "vector": V}), M), {}
+        return (build_manager(I, mgr, V, mods), M), {}
 
     START_V, END_V = Term("start", Term("V")), Term("end", Term("V"))
 
@@ -794,7 +809,7 @@ def k16_assemble(ctx, pid: str):
     citation rewrite on all exits."""
     p, mgr, mod_cls, vec_cls = _mgr_world(ctx)
     fi = p.get_func("moclo.core._assembly.AssemblyManager.assemble")
-    hooks = {}
+    hooks = _entity_hooks(p)
     base = "moclo.core._assembly.AssemblyManager."
 
     def stub(nm, may_raise=False, ret=None):
@@ -816,7 +831,9 @@ def k16_assemble(ctx, pid: str):
         V = _entity(vec_cls, "V")
         elements = ACollection("elements", lambda: _entity(mod_cls, "elem"))
         mods = ACollection("modules", lambda: _entity(mod_cls, "m"))
-        return (AObj(mgr, {"modules": mods, "vector": V, "elements": elements}),), {}
+        obj = build_manager(I, mgr, V, mods)
+        obj.attrs["elements"] = elements
+        return (obj,), {}
 
     def post(I, o):
         name = fi.qualname
